@@ -23,7 +23,7 @@ PROSE = {
  "C01": ("proof", "holds (ReadFrame's open finding is printed as KNOWN-FINDING)", "`CompileFrame/MustCompileFrame` (bytes.Buffer)"),
  "C02": ("proof", "holds; one defect found and fixed (key index overflow for offsets next to MaxInt)", "the streaming reader/writer assume a position below 2^62"),
  "C03": ("proof", "holds", "—"),
- "C04": ("proof of the per-frame step and of the reader's decision logic", "holds; three defects found and fixed (cut control frame, UTF-8 state leak, Discard of a cut payload)", "`Reader.Read` sees the reader chain as a black box (§10.1): end-to-end byte equality through the chain is the composition of separately proved contracts, not one theorem; `readData`, `ReadMessage` apart from its control-frame collector, NextFrame's callbacks, more than one extension"),
+ "C04": ("proof of the per-frame step and of the reader's decision logic", "holds; three defects found and fixed (cut control frame, UTF-8 state leak, Discard of a cut payload)", "`Reader.Read` sees the reader chain as a black box (§10.1): end-to-end byte equality through the chain is the composition of separately proved contracts, not one theorem; `readData`, `ReadMessage` apart from its control-frame collector, the `OnContinuation` callback, more than one extension"),
  "C05": ("proof", "holds", "as C04"),
  "C06": ("proof", "holds; `Writer.Reset` defect found and fixed", "more than one send extension, `ReadFrom`; one clause `Write [fitdata]` carried as `unproved`"),
  "C07": ("proof", "holds; `UTF8Reader.Reset` and the `Reader.Read` state leak found and fixed", "chain as black box in `Reader.Read`"),
